@@ -1,9 +1,11 @@
 import Pandora.Drv.Util
 import Pandora.Model.C04
 import Pandora.Spec.C04
+import Pandora.Spec.C04Prof
 
 namespace Pandora.Drv.C04
 open Pandora.Drv Pandora.Model.C04 Pandora.Spec.C04
+open Pandora.Spec (Q)
 
 def parseEntry (s : String) : Option Entry :=
   match s.splitOn ":" with
@@ -43,6 +45,48 @@ def profDur (p : String) : Option Int :=
         else
           let steps : Int := if f == t then 1 else (t - f) / st + 1
           some (acc + steps * m * 1000000)
+    | _ => none
+
+/-- a non-negative decimal number ("12", "0.4", "1.25") as an exact rational -/
+def parseDec (s : String) : Option Q :=
+  match s.splitOn "." with
+  | [a] => (a.toNat?).map fun n => Q.ofInt n
+  | [a, b] => do
+      let an ← a.toNat?
+      let bn ← b.toNat?
+      let den := 10 ^ b.length
+      some (Q.norm ⟨(an * den + bn : Nat), den⟩)
+  | _ => none
+
+/-- rate levels from, from+step, … ≤ to of a step profile -/
+def stepLevelsQ (f t : Q) (step : Int) : Nat → List Q
+  | 0 => []
+  | fuel + 1 => if Q.le f t then f :: stepLevelsQ (Q.norm (f + Q.ofInt step)) t step fuel else []
+
+/-- the configured profile as the parts of `Pandora.Spec.C01` (the oracle of `Spec.C04.judgeFull`); `none` = not readable -/
+def profParts (p : String) : Option (List Part) :=
+  (p.splitOn "+").foldlM (init := ([] : List Part)) fun acc seg =>
+    match seg.splitOn ":" with
+    | ["once", n] => (n.toInt?).map fun n => acc ++ [Spec.C01.Part.once n]
+    | ["const", ops, ms] => do
+        let o ← parseDec ops; let m ← ms.toInt?
+        some (acc ++ [Spec.C01.Part.const o (m * 1000000)])
+    | ["pause", ms] => (ms.toInt?).map fun m => acc ++ [Spec.C01.Part.const (Q.ofInt 0) (m * 1000000)]
+    | ["line", f, t, ms] => do
+        let f ← parseDec f; let t ← parseDec t; let m ← ms.toInt?
+        if f.num * t.den == t.num * f.den then some (acc ++ [Spec.C01.Part.const f (m * 1000000)])
+        else some (acc ++ [Spec.C01.Part.line f t (m * 1000000)])
+    | ["step", f, t, st, ms] => do
+        let f ← parseDec f; let t ← parseDec t; let st ← st.toInt?; let m ← ms.toInt?
+        if st ≤ 0 then none
+        else if f.num * t.den == t.num * f.den then some (acc ++ [Spec.C01.Part.const f (m * 1000000)])
+        else some (acc ++ (stepLevelsQ f t st 10000).map fun r => Spec.C01.Part.const r (m * 1000000))
+    | _ => none
+
+def parseRounds (s : String) : Option (List Round) :=
+  (splitList s ";").mapM fun r =>
+    match r.splitOn "/" with
+    | [rs, q] => do pure { rs := ← rs.toInt?, seqs := ← parseSeqs q }
     | _ => none
 
 def cancelAt (kv : List (String × String)) : Option Int :=
@@ -113,6 +157,12 @@ def handle : Handler := fun input impl =>
   else if impl.startsWith "PANIC" then ("-", s!"fail:panic:{impl.take 160}")
   else
   if getS (parseKV input) "mode" == "proc" then handleProc (parseKV input) impl else
+  if getS (parseKV input) "mode" == "race" then
+    match profParts (getS (parseKV input) "prof"), parseRounds (getS (parseKV impl) "seq") with
+    | some ps, some rounds => ("-", judgeRace ps rounds)
+    | none, _ => ("-", "fail:driver:unparsable profile")
+    | _, none => ("-", s!"fail:crash:unparsable observation {impl.take 120}")
+  else
   match parseInput (parseKV input), parseObs (parseKV impl) with
   | some i, some o =>
     let pr := o.seqs.map (predictSeq i.discard i.cancelled Waiter.init Waiter.init)
@@ -122,7 +172,7 @@ def handle : Handler := fun input impl =>
     let (net, tag) := if i.mode == "engine" && anyD then (toString discardNetCode, discardTag) else ("-", "-")
     let offs := if i.mode == "engine" then s!" offs={",".intercalate (o.offs.map toString)}" else ""
     let mobs := s!"end={o.endT} err={o.err} total={o.total} bad=0 net={net} tag={tag}{offs} seq={renderSeqs seqs}"
-    let v := judge i o
+    let v := judgeFull (profParts (getS (parseKV input) "prof")) i o
     let v := if v == "ok" && amb > 0 then s!"skip:inconclusive-{amb}-decisions-inside-the-reading-interval" else v
     (mobs, v)
   | none, _ => ("-", "fail:driver:unparsable input")
